@@ -24,7 +24,7 @@ Elems(un) ==
   CASE un = "num" -> <<IntV(1), IntV(2), Flt(5, 2), Nil>>
     [] un = "str" -> <<Str(<<97>>), Str(<<66>>), Str(<<98>>)>>
     [] un = "map" -> <<M1(KK, IntV(1)), M1(KK, IntV(2)), M1(JJ, IntV(1)), M1(KK, Nil), M1(KK, Str(<<49>>))>>
-    [] un = "mapsz" -> <<M1(KK, IntV(1)), MapV(<< <<JJ, IntV(2)>>, <<KK, IntV(1)>> >>), M1(SZ, IntV(7)), M1(SZ, Nil), MapV(<<>>)>>
+    [] un = "mapsz" -> <<M1(KK, IntV(1)), MapV(<< <<JJ, IntV(2)>>, <<KK, IntV(1)>> >>), M1(SZ, IntV(1)), M1(SZ, Nil), MapV(<<>>)>>
     \* whole numbers as integers and as floats: equal by ==, so one element to uniq (the first occurrence stays)
     [] un = "numeq" -> <<IntV(1), Flt(1, 1), IntV(0 - 1), Flt(0 - 1, 1), IntV(0 - 2), Flt(1, 2)>>
     \* values that look empty or false without being nil: compact keeps them all
@@ -38,7 +38,7 @@ SeqsOfLen(n, m) == IF n = 0 THEN {<<>>} ELSE {<<i>> \o t : i \in 1..m, t \in Seq
 Single == {"compact", "reverse", "first", "last", "size", "uniq", "sort", "join", "sort_natural"}
 CallsOf(un) ==
   IF un = "numeq" THEN [name : {"uniq", "sort", "compact", "reverse"}, arg : {"none"}, then : {"none", "size", "join", "uniq"}] ELSE
-  IF un = "mapsz" THEN [name : {"map"}, arg : {"k", "ksz"}, then : {"none", "compact", "join"}] ELSE
+  IF un = "mapsz" THEN [name : {"map"}, arg : {"k", "ksz"}, then : {"none", "compact", "join"}] \cup [name : {"sort"}, arg : {"k", "ksz"}, then : {"none"}] ELSE
   [name : Single, arg : {"none"}, then : {"none"}]
   \cup [name : {"join"}, arg : {"comma"}, then : {"none"}]
   \cup [name : {"concat"}, arg : {"other", "empty"}, then : {"none"}]
@@ -74,11 +74,12 @@ SortIsAscendingPermutation ==
      /\ IsPerm(arr, R.v.v)
      /\ LET nn == SelectSeq(R.v.v, LAMBDA e : ~IsNil(e)) IN \A i \in 1..(Len(nn) - 1) : Less3(nn[i + 1], nn[i]) # "t"
 SortByKeyLackingFirst ==
-  (Simple /\ call.name = "sort" /\ call.arg = "k" /\ Dec(R)) =>
+  (Simple /\ call.name = "sort" /\ call.arg \in {"k", "ksz"} /\ Dec(R)) =>
+     LET key == ArgVals[1].v IN
      /\ IsPerm(arr, R.v.v)
-     /\ \A i, j \in 1..Len(R.v.v) : (IsNil(KeyOf(R.v.v[j], KK)) /\ ~IsNil(KeyOf(R.v.v[i], KK))) => j < i
-     /\ \A i, j \in 1..Len(R.v.v) : (i < j /\ ~IsNil(KeyOf(R.v.v[i], KK)) /\ ~IsNil(KeyOf(R.v.v[j], KK)))
-                                       => Less3(KeyOf(R.v.v[j], KK), KeyOf(R.v.v[i], KK)) # "t"
+     /\ \A i, j \in 1..Len(R.v.v) : (IsNil(KeyOf(R.v.v[j], key)) /\ ~IsNil(KeyOf(R.v.v[i], key))) => j < i
+     /\ \A i, j \in 1..Len(R.v.v) : (i < j /\ ~IsNil(KeyOf(R.v.v[i], key)) /\ ~IsNil(KeyOf(R.v.v[j], key)))
+                                       => Less3(KeyOf(R.v.v[j], key), KeyOf(R.v.v[i], key)) # "t"
 ReverseInvolution == (Simple /\ call.name = "reverse" /\ Dec(R)) => F("reverse", R.v, <<>>) = FVal(Arr(arr))
 UniqLaw == (Simple /\ call.name = "uniq" /\ Dec(R)) =>
               /\ \A i, j \in 1..Len(R.v.v) : i # j => Eq3(R.v.v[i], R.v.v[j]) # "t"
